@@ -7,6 +7,7 @@
 package main
 
 import (
+	"bytes"
 	"context"
 	"io"
 	"log"
@@ -61,14 +62,33 @@ type faulter struct {
 	// the gate on the wire: the FIRST script command that arrives while it is armed is held in the hook
 	// (its connection's reader goroutine waits; other connections are served) until the executor opens it
 	gate    bool
-	arrived int           // script commands that arrived since the gate was armed
+	gateK   int           // which command (1 = the first that arrives while armed) is held
+	holding bool          // a command is being held: later commands pass
+	arrived int           // commands that arrived since the gate was armed
 	open    chan struct{} // closed by the executor
 	mr      *miniredis.Miniredis
 }
 
 func (f *faulter) hook(c *server.Peer, cmd string, args ...string) bool {
-	if cmd != "EVALSHA" && cmd != "EVAL" {
+	switch cmd {
+	case "HELLO", "AUTH", "SELECT", "CLIENT", "PING", "QUIT":
+		return false // connection set-up / health checks of the client library
+	}
+	// every other command is "the command of a call": today EVALSHA / EVAL, but a RedisLock that talks to the
+	// store with plain commands is driven (held, answered with a forged reply) in the same way - except the
+	// commands a running script issues itself (redis.call inside Lua passes through this hook as well)
+	f.mu.Lock()
+	active := f.armed != "" || f.gate
+	f.mu.Unlock()
+	if !active {
 		return false
+	}
+	if cmd != "EVALSHA" && cmd != "EVAL" {
+		buf := make([]byte, 3072)
+		buf = buf[:runtime.Stack(buf, false)]
+		if bytes.Contains(buf, []byte("gopher-lua")) {
+			return false
+		}
 	}
 	f.mu.Lock()
 	a := f.armed
@@ -78,7 +98,8 @@ func (f *faulter) hook(c *server.Peer, cmd string, args ...string) bool {
 	var wait chan struct{}
 	if f.gate {
 		f.arrived++
-		if f.arrived == 1 {
+		if !f.holding && f.arrived == f.gateK {
+			f.holding = true
 			wait = f.open
 		}
 	}
@@ -109,10 +130,18 @@ func (f *faulter) hook(c *server.Peer, cmd string, args ...string) bool {
 	return true
 }
 
-func (f *faulter) armGate() {
+func (f *faulter) armGate() { f.armGateAt(1) }
+
+func (f *faulter) armGateAt(k int) {
 	f.mu.Lock()
-	f.gate, f.arrived, f.open = true, 0, make(chan struct{})
+	f.gate, f.gateK, f.holding, f.arrived, f.open = true, k, false, 0, make(chan struct{})
 	f.mu.Unlock()
+}
+
+func (f *faulter) isHolding() bool {
+	f.mu.Lock()
+	defer f.mu.Unlock()
+	return f.holding
 }
 
 func (f *faulter) seen() int {
@@ -264,16 +293,19 @@ func runCase(c Case) (out Out) {
 		}
 		return ""
 	}
-	for _, op := range c.Ops {
+	var step func(op []any) (any, bool)
+	step = func(op []any) (any, bool) {
 		switch op[0].(string) {
 		case "acq":
 			g0 := f.census()
-			out.Obs = append(out.Obs, call(num(op[1]), false, kindOf(op)))
+			r := call(num(op[1]), false, kindOf(op))
 			f.settle(g0)
+			return r, true
 		case "rel":
 			g0 := f.census()
-			out.Obs = append(out.Obs, call(num(op[1]), true, kindOf(op)))
+			r := call(num(op[1]), true, kindOf(op))
 			f.settle(g0)
+			return r, true
 		case "ovl": // ["ovl", h, p]: instance h's Acquire OVERLAPS instance p's Acquire, which is in flight on the wire
 			h, p := num(op[1]), num(op[2])
 			g0 := f.census()
@@ -284,7 +316,7 @@ func runCase(c Case) (out Out) {
 				if k > 5000 {
 					f.openGate()
 					out.Err = "ovl: the first caller's command never arrived"
-					return
+					return nil, false
 				}
 				time.Sleep(time.Millisecond)
 			}
@@ -311,7 +343,7 @@ func runCase(c Case) (out Out) {
 				hr = <-hdone
 			}
 			f.settle(g0)
-			out.Obs = append(out.Obs, [][]bool{hr, pr})
+			return [][]bool{hr, pr}, true
 		case "par": // ["par", "acq"|"rel", [i, j, ...]]: the listed instances call concurrently
 			rel := op[1].(string) == "rel"
 			list := op[2].([]any)
@@ -332,7 +364,7 @@ func runCase(c Case) (out Out) {
 			close(start)
 			wg.Wait()
 			f.settle(g0)
-			out.Obs = append(out.Obs, res)
+			return res, true
 		case "fault": // ["fault", i, "acq"|"rel", kind]
 			kind := op[3].(string)
 			if kind == "err" {
@@ -342,17 +374,16 @@ func runCase(c Case) (out Out) {
 			g0 := f.census()
 			r := call(num(op[1]), op[2].(string) == "rel", "")
 			f.settle(g0)
-			if hits := f.disarm(); hits != 1 {
-				out.Err = "fault intercepted " + strconv.Itoa(hits) + " commands"
-				return
-			}
-			out.Obs = append(out.Obs, r)
+			// (how many commands the call sent while the fault was armed is not the executor's business: whatever
+			// the call answered is judged against "the store answered the call with this reply")
+			f.disarm()
+			return r, true
 		case "exp":
 			locks[num(op[1])].SetExpire(int(num(op[2])))
-			out.Obs = append(out.Obs, nil)
+			return nil, true
 		case "adv":
 			mr.FastForward(time.Duration(num(op[1])) * time.Millisecond)
-			out.Obs = append(out.Obs, nil)
+			return nil, true
 		case "poke": // ["poke", keyidx, value, ttl_ms]
 			k := c.Keys[num(op[1])]
 			v := op[2].(string)
@@ -364,21 +395,62 @@ func runCase(c Case) (out Out) {
 			if t := num(op[3]); t > 0 {
 				mr.SetTTL(k, time.Duration(t)*time.Millisecond)
 			}
-			out.Obs = append(out.Obs, nil)
+			return nil, true
 		case "ttl": // ["ttl", keyidx]
 			k := c.Keys[num(op[1])]
 			switch {
 			case !mr.Exists(k):
-				out.Obs = append(out.Obs, map[string]int64{"ttl": -2})
+				return map[string]int64{"ttl": -2}, true
 			case mr.TTL(k) == 0:
-				out.Obs = append(out.Obs, map[string]int64{"ttl": -1})
+				return map[string]int64{"ttl": -1}, true
 			default:
-				out.Obs = append(out.Obs, map[string]int64{"ttl": mr.TTL(k).Milliseconds()})
+				return map[string]int64{"ttl": mr.TTL(k).Milliseconds()}, true
 			}
+		case "mid": // ["mid", i, "acq"|"rel", k, [ops...]]: instance i's call is stopped on the wire in front of its
+			// k-th command; the nested operations (clock, other instances, foreign writes) happen; the call goes on.
+			// Today a call is ONE script execution: whatever is held, the call has not taken effect yet.
+			i, rel, k := num(op[1]), op[2].(string) == "rel", int(num(op[3]))
+			g0 := f.census()
+			f.armGateAt(k)
+			cdone := make(chan []bool, 1)
+			go c19Caller(func() { cdone <- call(i, rel, "") })
+			var cr []bool
+			for n := 0; n < 5000 && cr == nil && !f.isHolding(); n++ {
+				select {
+				case cr = <-cdone:
+				case <-time.After(time.Millisecond):
+				}
+			}
+			held := cr == nil && f.isHolding()
+			if !held {
+				f.openGate() // the call never sent that many commands: nothing of the nested operations is to be held
+			}
+			var nested []any
+			for _, v := range op[4].([]any) {
+				o, ok := step(v.([]any))
+				if !ok {
+					f.openGate()
+					return nil, false
+				}
+				nested = append(nested, o)
+			}
+			f.openGate()
+			if cr == nil {
+				cr = <-cdone
+			}
+			f.settle(g0)
+			return map[string]any{"held": held, "call": cr, "nested": nested}, true
 		default:
 			out.Err = "unknown op"
+			return nil, false
+		}
+	}
+	for _, op := range c.Ops {
+		o, ok := step(op)
+		if !ok {
 			return
 		}
+		out.Obs = append(out.Obs, o)
 	}
 	return
 }
